@@ -851,7 +851,7 @@ class BADS:
         if (
             self.options["specify_target_noise"]
             and self.options["noise_size"] is not None
-            and np.array(self.options["noise_size"] > 0)[0]
+            and np.any(np.asarray(self.options["noise_size"]) > 0)
         ):
             self.logger.warn(
                 "If options['specify_target_noise'] is True, options['noise_size'] is ignored. \
